@@ -162,3 +162,30 @@ pub fn sequences(text: &str) -> Vec<&str> {
         .map(|t| &text[t.start..t.end])
         .collect()
 }
+
+/// Like `clean_ansi`, but additionally accepts two-character escape sequences
+/// (ESC followed by one byte in '0'..='~' other than '[' and ']', e.g. ESC 7,
+/// ESC M, ESC c): they are ANSI sequences of fixed length two, and "removing
+/// the ANSI sequences" is unambiguous for them. Used by C11 / C12, whose
+/// statements speak of ANSI sequences in general rather than CSI/OSC only.
+pub fn wellformed_or_two_char(text: &str) -> bool {
+    if !text.contains(ESC) {
+        return true;
+    }
+    let mut rest = String::with_capacity(text.len());
+    for t in tokenize(text) {
+        match t.kind {
+            Kind::Dirty => {
+                let body = &text[t.start..t.end];
+                let mut it = body.chars();
+                it.next();
+                match (it.next(), it.next()) {
+                    (Some(c), None) if ('0'..='~').contains(&c) && c != '[' && c != ']' => {}
+                    _ => return false,
+                }
+            }
+            _ => rest.push_str(&text[t.start..t.end]),
+        }
+    }
+    clean_ansi(&rest)
+}
